@@ -17,12 +17,15 @@ PLANS = {
     'C07': {'quick': [('frag', 8000), ('sweep', 1200)],
             'thorough': [('frag', 200000), ('sweep', 20000)]},
     'C08': {'quick': [('corrupt', 10000), ('random', 1500), ('frag', 800),
-                      ('long', 300)],
+                      ('long', 300), ('truncsweep', 400), ('bytesweep', 150)],
             'thorough': [('corrupt', 250000), ('random', 30000),
-                         ('frag', 10000), ('long', 8000)]},
-    'C09': {'quick': [('corrupt', 12000), ('random', 2000), ('long', 500)],
+                         ('frag', 10000), ('long', 8000),
+                         ('truncsweep', 12000), ('bytesweep', 3000)]},
+    'C09': {'quick': [('corrupt', 12000), ('random', 2000), ('long', 500),
+                      ('truncsweep', 400), ('bytesweep', 150)],
             'thorough': [('corrupt', 300000), ('random', 40000),
-                         ('long', 12000)]},
+                         ('long', 12000), ('truncsweep', 12000),
+                         ('bytesweep', 3000)]},
     'C20': {'quick': [('frag', 7000), ('corrupt', 3000), ('random', 2500)],
             'thorough': [('frag', 180000), ('corrupt', 60000),
                          ('random', 60000)]},
@@ -128,12 +131,16 @@ def _ddmin_list(items, test):
     return items
 
 
-def shrink(check, trace, cls, vbuf=None, max_execs=2000):
+def shrink(check, trace, cls, vbuf=None, max_execs=2000, max_wall=None):
     """Minimise the trace while the same violation class persists."""
-    state = {'n': 0}
+    import os
+    import time
+    max_wall = max_wall or float(os.environ.get('VERIF_SHRINK_S', '60'))
+    state = {'n': 0, 't0': time.time()}
 
     def bad(t):
-        if state['n'] >= max_execs:
+        if state['n'] >= max_execs or \
+                time.time() - state['t0'] > max_wall:
             return False
         state['n'] += 1
         try:
@@ -186,7 +193,8 @@ def shrink(check, trace, cls, vbuf=None, max_execs=2000):
             return cur, state['n'], True
 
     progress = True
-    while progress and state['n'] < max_execs:
+    while progress and state['n'] < max_execs and \
+            time.time() - state['t0'] < max_wall:
         progress = False
         # 1. drop connections
         if len(cur['conns']) > 1:
